@@ -710,6 +710,71 @@ func (mc *machine) delete(rt *rapid.T) {
 	mc.run(rt, q, o)
 }
 
+// deepAction looks (with the model) for a single-row DELETE or key UPDATE whose referential
+// actions reach two or more levels, and runs one of them; generation bias only.
+func (mc *machine) deepAction(rt *rapid.T) {
+	if !mc.checksOn {
+		rt.Skip()
+	}
+	type cand struct {
+		q string
+		o outcome
+	}
+	var cands []cand
+	for t, td := range mc.sc.tables {
+		used := map[int64]bool{}
+		for _, r := range mc.m.rows[t] {
+			used[r.v[0]] = true
+		}
+		nid := int64(1)
+		for used[nid] {
+			nid++
+		}
+		for _, r := range mc.m.rows[t] {
+			if o := modelDelete(mc.sc, mc.m, t, []int{r.rid}); o.depth >= 2 {
+				cands = append(cands, cand{fmt.Sprintf("DELETE FROM %s WHERE id = %d", td.name, r.v[0]), o})
+			}
+			for _, g := range mc.keyGroups(t) {
+				if len(g) != 1 {
+					continue
+				}
+				set := map[int64]int64{}
+				_ = set
+				c := g[0]
+				nv := nid
+				if c != 0 {
+					nv = 0
+					for x := int64(1); x <= 9; x++ {
+						free := true
+						for _, r2 := range mc.m.rows[t] {
+							if r2.v[c] == x {
+								free = false
+							}
+						}
+						if free {
+							nv = x
+							break
+						}
+					}
+					if nv == 0 {
+						continue
+					}
+				}
+				o := modelUpdate(mc.sc, mc.m, t, []int{r.rid}, func([]int64) map[int]int64 { return map[int]int64{c: nv} })
+				if o.depth >= 2 {
+					cands = append(cands, cand{fmt.Sprintf("UPDATE %s SET %s = %d WHERE id = %d", td.name, td.cols[c].name, nv, r.v[0]), o})
+				}
+			}
+		}
+	}
+	if len(cands) == 0 {
+		rt.Skip()
+	}
+	c := cands[rapid.IntRange(0, len(cands)-1).Draw(rt, "deepCandidate")]
+	mc.st.Class("op:deep-" + strings.ToLower(strings.Fields(c.q)[0]))
+	mc.run(rt, c.q, c.o)
+}
+
 // parentKeyGroups lists the column groups of t that some foreign key references (plus id).
 func (mc *machine) keyGroups(t int) [][]int {
 	groups := [][]int{{0}}
@@ -782,10 +847,25 @@ func (mc *machine) updateKey(rt *rapid.T) {
 func (mc *machine) shiftKeys(rt *rapid.T) {
 	t := mc.pickParentTable(rt)
 	p := mc.genPred(rt, t)
-	d := int64(rapid.SampledFrom([]int{10, 10, 1, -1, 2}).Draw(rt, "delta"))
+	d := int64(rapid.SampledFrom([]int{10, 10, -10, 1, -1, 2}).Draw(rt, "delta"))
 	q := fmt.Sprintf("UPDATE %s SET id = id + %d%s", mc.sc.tables[t].name, d, p.sql)
 	if d < 0 {
 		q = fmt.Sprintf("UPDATE %s SET id = id - %d%s", mc.sc.tables[t].name, -d, p.sql)
+	}
+	// A shift in which the new key of one row is the old key of another updated row has an
+	// order-dependent result (cascades re-key children twice or once; duplicate or not):
+	// outside the deterministic domain, not generated.
+	{
+		old := map[int64]bool{}
+		for _, rid := range mc.matching(t, p) {
+			old[mc.m.find(t, rid).v[0]] = true
+		}
+		for k := range old {
+			if old[k+d] {
+				mc.st.Class("skipped:order-dependent-shift")
+				rt.Skip()
+			}
+		}
 	}
 	var o outcome
 	if mc.checksOn {
@@ -1073,6 +1153,8 @@ func TestC18(t *testing.T) {
 			"updateChild": mc.updateChild,
 			"checksOff":   mc.checksOffEpisode,
 			"delete3":     mc.delete,
+			"deep":        mc.deepAction,
+			"deep2":       mc.deepAction,
 			"updateKey3":  mc.updateKey,
 			"dropFK":      mc.dropFK,
 			"addFK":       mc.addFK,
